@@ -2,7 +2,7 @@
    a successful copy, a copy whose third primitive call fails, a successful and a failed move, a removal, and a
    handle listing '../secret' that is refused before anything is touched. *)
 From Coq Require Import List Ascii String Bool Arith Lia.
-Require Import GS U20 U20b U20c U20d.
+Require Import GS U20 U20b U20c U20d U20e.
 Import ListNotations.
 
 Definition h0 : handle := {| h_dir := s "up"; h_file := s "p.changes"; h_listed := [s "p.deb"; s "p.dsc"] |}.
@@ -40,4 +40,12 @@ Proof. vm_compute. repeat split. Qed.
 (* a history: copy, then remove through the same handle *)
 Example C20w_copy_then_remove : exists x1 x2, do_copy never h0 (s "in") x0 = (x1, true) /\ do_remove never (after h0 (s "in") true) x1 = (x2, true) /\
   fs_get (s "in", s "p.changes") (fs x2) = None /\ fs_get (s "up", s "p.changes") (fs x2) = Some (s "C") /\ fs_get (s "up", s "p.deb") (fs x2) = Some (s "D").
+Proof. eexists. eexists. split; [vm_compute; reflexivity|]. split; [vm_compute; reflexivity|]. vm_compute. repeat split. Qed.
+
+(* histories: move then remove; copy then move on to a second destination *)
+Example C20w_move_then_remove : exists x1 x2, do_move never h0 (s "in") x0 = (x1, true) /\ do_remove never (after h0 (s "in") true) x1 = (x2, true) /\
+  fs_get (s "in", s "p.deb") (fs x2) = None /\ fs_get (s "up", s "p.deb") (fs x2) = None /\ fs_get (s "", s "secret") (fs x2) = Some (s "X").
+Proof. eexists. eexists. split; [vm_compute; reflexivity|]. split; [vm_compute; reflexivity|]. vm_compute. repeat split. Qed.
+Example C20w_copy_then_move : exists x1 x2, do_copy never h0 (s "in") x0 = (x1, true) /\ do_move never (after h0 (s "in") true) (s "in2") x1 = (x2, true) /\
+  fs_get (s "in2", s "p.dsc") (fs x2) = Some (s "S") /\ fs_get (s "in", s "p.dsc") (fs x2) = None /\ fs_get (s "up", s "p.dsc") (fs x2) = Some (s "S").
 Proof. eexists. eexists. split; [vm_compute; reflexivity|]. split; [vm_compute; reflexivity|]. vm_compute. repeat split. Qed.
